@@ -15,7 +15,7 @@
 #define MODE 0
 #endif
 static const char *bufs_[] = {"", "ab cd\n", "a\xe4\xb8\xad" "b\n\n\t(x) \xd8\xa8\xd8\xa7 e\xcc\x81\n"};
-static const char *prefix[] = {"", "1,2", "s/a/", "g/a/", "'a", "/b/", "%s/./", "2", "e ", "w ", "b ", "set ", "rs a\n", "a\n", "1;", "@", "ra ", "k", "pu ", "u|", "1d|u|"};
+static const char *prefix[] = {"", "1,2", "s/a/", "g/a/", "'a", "/b/", "%s/./", "2", "e ", "w ", "b ", "set ", "rs a\n", "a\n", "1;", "@", "ra ", "k", "pu ", "u|", "1d|u|", "y a|y ", "d a|pu ", "1y|pu|u|", "rs a\nx\n.\nrs "};
 #define NPRE (sizeof(prefix) / sizeof(prefix[0]))
 void harness(void)
 {
